@@ -6,6 +6,10 @@ Descriptor grammar (plain data, independent of the code under test):
     ("leaf", kind, rshape)                 kind in KINDS, rshape = reference value shape
     ("mixed", [sub, ...], forced)          forced: use MixedPullback even if all subs are identity
     ("symm", block_shape, symlist, [sub, ...])   symlist in np.ndindex(block_shape) order
+    ("seq", [sub, ...])                    top level only: mixed element on a MeshSequence, sub-element i lives on
+                                           component mesh i (its own J, K, detJ)
+SYM_ORDER selects the INSERTION ORDER of the symmetry dict handed to SymmetricElement (the mapping itself is the
+same): the push-forward must not depend on the order in which the user wrote the dict entries.
 """
 
 import itertools
@@ -41,8 +45,11 @@ def rshape(d):
     return (sum(prod(rshape(x)) for x in subs(d)),)
 
 
+SYM_ORDER = "rowmajor"      # "rowmajor" | "reversed" | "diagfirst" | "colmajor"
+
+
 def subs(d):
-    return d[1] if d[0] == "mixed" else d[3]
+    return d[1] if d[0] in ("mixed", "seq") else d[3]
 
 
 def pshape(d, g):
@@ -53,7 +60,7 @@ def pshape(d, g):
         if k in ("contra", "cov"):
             return sh[:-1] + (g,)
         return sh[:-2] + (g, g)
-    if d[0] == "mixed":
+    if d[0] in ("mixed", "seq"):
         return (sum(prod(pshape(x, g)) for x in d[1]),)
     return tuple(d[1]) + pshape(d[3][0], g)
 
@@ -63,6 +70,8 @@ def normalise(d):
     pullback by the element class (unless forced): its descriptor is an identity leaf."""
     if d[0] == "leaf":
         return d
+    if d[0] == "seq":
+        return ("seq", [normalise(x) for x in d[1]])
     if d[0] == "mixed":
         ss = [normalise(x) for x in d[1]]
         forced = len(d) > 2 and d[2]
@@ -88,9 +97,18 @@ def make_element(d, cell):
             e._pullback = P.MixedPullback(e)
             e._repr = e._repr + "#forced"
         return e
+    if d[0] == "seq":
+        return elements.MixedElement([make_element(x, cell) for x in d[1]], make_cell_sequence=True)
     _, bs, sym, sub = d
     ss = [make_element(x, cell) for x in sub]
-    symmetry = {c: sym[k] for k, c in enumerate(itertools.product(*[range(n) for n in bs]))}
+    keys = list(enumerate(itertools.product(*[range(n) for n in bs])))
+    if SYM_ORDER == "reversed":
+        keys = keys[::-1]
+    elif SYM_ORDER == "diagfirst":      # Voigt-like: entries with all-equal indices first
+        keys = [kc for kc in keys if len(set(kc[1])) <= 1] + [kc for kc in keys if len(set(kc[1])) > 1][::-1]
+    elif SYM_ORDER == "colmajor":
+        keys = sorted(keys, key=lambda kc: kc[1][::-1])
+    symmetry = {c: sym[k] for k, c in keys}
     return elements.SymmetricElement(symmetry, ss)
 
 
@@ -103,12 +121,16 @@ def tree_text(d):
         return f"(Leaf {KINDS[d[1]][0]} {natlist(d[2])})"
     if d[0] == "mixed":
         return "(Mixed [" + "; ".join(tree_text(x) for x in d[1]) + "])"
+    if d[0] == "seq":
+        return "(* MeshSequence *) [" + "; ".join(tree_text(x) for x in d[1]) + "]"
     return f"(Symm {natlist(d[1])} {natlist(d[2])} [" + "; ".join(tree_text(x) for x in d[3]) + "])"
 
 
 def short(d):
     if d[0] == "leaf":
         return d[1] + "".join(map(str, d[2]))
+    if d[0] == "seq":
+        return "Q(" + ",".join(short(x) for x in d[1]) + ")"
     if d[0] == "mixed":
         return "M" + ("f" if len(d) > 2 and d[2] else "") + "(" + ",".join(short(x) for x in d[1]) + ")"
     return "S" + "".join(map(str, d[1])) + "(" + ",".join(short(x) for x in d[3]) + ")"
@@ -162,6 +184,17 @@ def pf(d, g, t, J, K, detJ, r, c):
                 else:
                     tot += K(m, i) * x * J(j, n) / detJ
         return tot
+    if d[0] == "seq":          # J, K, detJ are lists, one per component mesh
+        (n,) = c
+        roff = 0
+        for i, x in enumerate(d[1]):
+            ps = prod(pshape(x, g))
+            rs = rshape(x)
+            if n < ps:
+                return pf(x, g, t, J[i], K[i], detJ[i], _sub(r, roff, rs), unflat(pshape(x, g), n))
+            n -= ps
+            roff += prod(rs)
+        raise IndexError(c)
     if d[0] == "mixed":
         (n,) = c
         roff = 0
@@ -185,24 +218,26 @@ def _sub(r, roff, sh):
 
 
 def find_mismatch(out, d, g, t, fterm, mesh, trials=30, seed=0):
-    """Random rational values for RefValue(f), J, K, detJ; compare den(out) with pf."""
+    """Random rational values for RefValue(f), J, K, detJ (per component mesh); compare den(out) with pf."""
     import random
 
     import pyden
     from ufl.classes import Jacobian, JacobianDeterminant, JacobianInverse
     rng = random.Random(seed)
-    Jt, Kt, Dt = Jacobian(mesh), JacobianInverse(mesh), JacobianDeterminant(mesh)
+    meshes = list(mesh) if isinstance(mesh, (list, tuple)) else [mesh]
+    geo = [(Jacobian(m), JacobianInverse(m), JacobianDeterminant(m)) for m in meshes]
     comps = list(itertools.product(*[range(n) for n in out.ufl_shape]))
     for trial in range(trials):
         env = pyden.Env(nv=1, order=0, seed=rng.randrange(10**9))
-        J = lambda i, j: env.value(Jt, (i, j), None).value()      # noqa: E731
-        K = lambda i, j: env.value(Kt, (i, j), None).value()      # noqa: E731
-        detJ = env.value(Dt, (), None).value()
+        Js = [(lambda i, j, Jt=Jt: env.value(Jt, (i, j), None).value()) for Jt, _, _ in geo]
+        Ks = [(lambda i, j, Kt=Kt: env.value(Kt, (i, j), None).value()) for _, Kt, _ in geo]
+        dets = [env.value(Dt, (), None).value() for _, _, Dt in geo]
         r = lambda c: env.value(fterm, tuple(c), None).value()    # noqa: E731
+        seq = d[0] == "seq"
         for c in comps:
             try:
                 a = pyden.evaluate(out, env, {}, c).value()
-                b = pf(d, g, t, J, K, detJ, r, c)
+                b = pf(d, g, t, Js if seq else Js[0], Ks if seq else Ks[0], dets if seq else dets[0], r, c)
             except ZeroDivisionError:
                 continue
             except Exception as ex:    # the search is best effort
@@ -211,9 +246,10 @@ def find_mismatch(out, d, g, t, fterm, mesh, trials=30, seed=0):
                 rs = rshape(d)
                 return {
                     "component": list(c), "implementation_value": str(a), "declared_push_forward": str(b),
-                    "J": {f"{i},{j}": str(J(i, j)) for i in range(g) for j in range(t)},
-                    "K": {f"{i},{j}": str(K(i, j)) for i in range(t) for j in range(g)},
-                    "detJ": str(detJ),
+                    "geometry_per_component_mesh": [
+                        {"J": {f"{i},{j}": str(Js[m](i, j)) for i in range(g) for j in range(t)},
+                         "K": {f"{i},{j}": str(Ks[m](i, j)) for i in range(t) for j in range(g)},
+                         "detJ": str(dets[m])} for m in range(len(meshes))],
                     "reference_value": {str(list(cc)): str(r(cc)) for cc in
                                         itertools.product(*[range(n) for n in rs])},
                     "trial": trial,
